@@ -140,7 +140,7 @@ GetIdle(c) ==
                      /\ cur' = [cur EXCEPT ![c] = x] /\ idle' = idle \ {x}
                      \* another call whose reply is still being handed over now shares its connection
                      /\ LET others == {d \in Calls : d # c /\ cur[d] = x /\ pc[d] \in {"writing", "wait", "cweA", "cweB"}} IN
-                          shared' = [d \in Calls |-> shared[d] \/ d \in others \/ (d = c /\ others # {})]
+                          shared' = [d \in Calls |-> IF d = c THEN others # {} ELSE shared[d] \/ d \in others]
                 /\ isNew' = [isNew EXCEPT ![c] = FALSE]
                 /\ pc' = [pc EXCEPT ![c] = "install"]
                 /\ UNCHANGED <<res, slot, mydial, spawn, failOK, dialedFor>>
